@@ -36,9 +36,12 @@ int32        g_att_nrec[NA], g_att_il[NA];
 h4v_u8_t     g_att_nm[NA];  /* the (one-character) name: g_att[k].vsname */
 int          g_ek[MAXA + 1]; /* table index of the attribute Vdata that list entry i refers to (-1: dangling) */
 int          g_att_wn[NA];  /* number of fields: g_att[k].wlist.n */
+int          g_found, g_fk; /* Vsetattr: list position of the first entry with the requested name (-1: none), its table index */
 int          g_att_cls[NA]; /* class is "Attr0.0" */
 int          g_att_fnok[NA]; /* the field is called "VALUES" */
 int32        g_ntsize; /* what DFKNTsize answers */
+h4v_u8_t     g_att_val[NA][4]; /* the stored record (attributes of 4 bytes) */
+int          g_sel; /* VSattrinfo/VSgetattr: list position of attribute number attrindex of the field (-1: none); g_fk its table index */
 /* log of the V layer: one object, so that the frame of every contract is a single target */
 struct va_log {
     int         att_open[NA];
@@ -242,10 +245,16 @@ VSread(int32 vkey, uint8 buf[], int32 nelt, int32 interlace)
     g_rd_nrec   = nelt;
     g_rd_il     = interlace;
     H4V_ND(int, vsread_fails);
-    if (vsread_fails) {
+    if (vsread_fails || nelt < 0) { /* (VSread refuses a negative record count) */
         g_v_failed = 1;
         return FAIL;
     }
+    if (nelt == 0)
+        return 0;
+    buf[0] = g_att_val[KATM(vkey)][0];
+    buf[1] = g_att_val[KATM(vkey)][1];
+    buf[2] = g_att_val[KATM(vkey)][2];
+    buf[3] = g_att_val[KATM(vkey)][3];
     return nelt;
 }
 int32
@@ -274,7 +283,53 @@ DFKNTsize(int32 number_type)
     return (int)g_ntsize;
 }
 
+/* allocation inside vattr.c (the attribute lists of Vsetattr / VSsetattr).  malloc: fails when the harness says so.  realloc: cbmc's
+   own model copies a block of symbolic size byte by byte (not tractable, and it made two clauses of Vsetattr fail spuriously... no:
+   genuinely, because cbmc 6 lets it fail); this one is exact for the lists of the harnesses (g_o_n <= MAXA entries of g_o_esz bytes
+   on entry): a fresh block, the old entries copied one by one, the old block freed; on failure NULL and the old block is kept. */
+int g_o_esz;
+int g_alloc_fails; /* harness input: the allocations of the function under contract fail */
+static void *
+h4v_malloc(size_t n)
+{
+    if (g_alloc_fails)
+        return NULL;
+    void *p = malloc(n);
+    H4V_ASSUME(p != NULL);
+    return p;
+}
+static void *
+h4v_realloc(void *old, size_t n)
+{
+    H4V_CHECK(old == g_o_alist && (g_o_esz == (int)sizeof(vg_attr_t) || g_o_esz == (int)sizeof(vs_attr_t)) && g_o_n >= 0 && g_o_n <= MAXA &&
+                  n >= (size_t)g_o_n * (size_t)g_o_esz,
+              "realloc of the attribute list as it was on entry, not shrinking");
+    if (g_alloc_fails)
+        return NULL;
+    void *p = malloc(n);
+    H4V_ASSUME(p != NULL);
+    if (g_o_esz == (int)sizeof(vg_attr_t)) {
+        vg_attr_t *o = (vg_attr_t *)old, *q = (vg_attr_t *)p;
+        if (g_o_n > 0) q[0] = o[0];
+        if (g_o_n > 1) q[1] = o[1];
+        if (g_o_n > 2) q[2] = o[2];
+    }
+    else {
+        vs_attr_t *o = (vs_attr_t *)old, *q = (vs_attr_t *)p;
+        if (g_o_n > 0) q[0] = o[0];
+        if (g_o_n > 1) q[1] = o[1];
+        if (g_o_n > 2) q[2] = o[2];
+    }
+    free(old);
+    return p;
+}
+#define realloc(p, n) h4v_realloc(p, n)
+#define malloc(n)     h4v_malloc(n)
+
 #include "vattr.c"
+#undef realloc
+#undef malloc
+
 
 /* ------------------------------------------------------------------ contracts */
 #define V_LOG g_L
@@ -341,22 +396,33 @@ int VSfindattr(int32 vsid, int32 findex, const char *attrname)
 
 
 /* attribute number attrindex of the field: name, type, count and size of the attribute Vdata the list entry refers to */
+#define PSEL_REP(fx, ai) (!PAR_OK(VA_VSID) || (g_sel == PSEL(fx, ai) && (g_sel < 0 || g_fk == g_ek[g_sel])))
+#define DELIVERED(v, k) (g_att_nrec[k] < 1 || (((unsigned char *)(v))[0] == g_att_val[k][0] && ((unsigned char *)(v))[1] == g_att_val[k][1] &&           \
+                         ((unsigned char *)(v))[2] == g_att_val[k][2] && ((unsigned char *)(v))[3] == g_att_val[k][3]))
+#define READ_OF(v, k)   (g_n_read == 1 && g_rd_k == (k) && g_rd_values == (void *)(v) && g_rd_nrec == g_att_nrec[k] && g_rd_il == g_att_il[k] && \
+                         g_n_setf == 1 && g_sf_k == (k) && g_sf_ok && g_n_write == 0 && g_n_store == 0)
 int VSattrinfo(int32 vsid, int32 findex, int attrindex, char *name, int32 *datatype, int32 *count, int32 *size)
-    __CPROVER_requires(PAR_REP && TAB_REP && PEK_REP)
+    __CPROVER_requires(PAR_REP && TAB_REP && PEK_REP && PSEL_REP(findex, attrindex))
     __CPROVER_requires(datatype != NULL && count != NULL && size != NULL && name != NULL)
     __CPROVER_assigns(V_LOG, *datatype, *count, *size, __CPROVER_object_whole(name))
-    __CPROVER_ensures((!PAR_OK(vsid) || !FX_OK(findex) || PSEL(findex, attrindex) < 0) ==>
-                      (__CPROVER_return_value == FAIL && g_n_attach == __CPROVER_old(g_n_attach)))
-    __CPROVER_ensures((PAR_OK(vsid) && FX_OK(findex) && PSEL(findex, attrindex) >= 0 && PK(PSEL(findex, attrindex)) >= 0 && !g_v_failed &&
-                       ATT_GOOD(PK(PSEL(findex, attrindex)))) ==>
-                      (__CPROVER_return_value == SUCCEED && *datatype == (int32)g_att_type[PK(PSEL(findex, attrindex))][0] &&
-                       *count == (int32)g_att_order[PK(PSEL(findex, attrindex))][0] &&
-                       *size == (int32)g_att_order[PK(PSEL(findex, attrindex))][0] * g_ntsize &&
-                       g_nt_arg == (g_att_type[PK(PSEL(findex, attrindex))][0] | DFNT_NATIVE) &&
-                       (unsigned char)name[0] == g_att_nm[PK(PSEL(findex, attrindex))] && name[1] == 0 && g_n_attach == g_n_detach))
-    __CPROVER_ensures((PAR_OK(vsid) && FX_OK(findex) && PSEL(findex, attrindex) >= 0 &&
-                       (PK(PSEL(findex, attrindex)) < 0 || g_v_failed || !ATT_GOOD(PK(PSEL(findex, attrindex))))) ==>
-                      __CPROVER_return_value == FAIL);
+    __CPROVER_ensures((!PAR_OK(vsid) || !FX_OK(findex) || g_sel < 0) ==> (__CPROVER_return_value == FAIL && g_n_attach == __CPROVER_old(g_n_attach)))
+    __CPROVER_ensures((PAR_OK(vsid) && FX_OK(findex) && g_sel >= 0 && g_fk >= 0 && !g_v_failed && ATT_GOOD(g_fk)) ==>
+                      (__CPROVER_return_value == SUCCEED && *datatype == (int32)g_att_type[g_fk][0] && *count == (int32)g_att_order[g_fk][0] &&
+                       *size == (int32)g_att_order[g_fk][0] * g_ntsize && g_nt_arg == (g_att_type[g_fk][0] | DFNT_NATIVE) &&
+                       (unsigned char)name[0] == g_att_nm[g_fk] && name[1] == 0 && g_n_attach == g_n_detach))
+    __CPROVER_ensures((PAR_OK(vsid) && FX_OK(findex) && g_sel >= 0 && (g_fk < 0 || g_v_failed || !ATT_GOOD(g_fk))) ==> __CPROVER_return_value == FAIL);
+
+/* the values delivered are the record of the attribute Vdata that is attribute number attrindex of the field */
+int VSgetattr(int32 vsid, int32 findex, int attrindex, void *values)
+    __CPROVER_requires(PAR_REP && TAB_REP && PEK_REP && PSEL_REP(findex, attrindex))
+    __CPROVER_requires(values != NULL)
+    __CPROVER_assigns(V_LOG, __CPROVER_object_whole(values))
+    __CPROVER_ensures((!PAR_OK(vsid) || !FX_OK(findex) || g_sel < 0) ==> (__CPROVER_return_value == FAIL && g_n_attach == __CPROVER_old(g_n_attach) && g_n_read == 0))
+    __CPROVER_ensures((PAR_OK(vsid) && FX_OK(findex) && g_sel >= 0 && g_fk >= 0 && !g_v_failed && g_att_cls_ok(g_fk) && g_att_fn_ok(g_fk)) ==>
+                      (__CPROVER_return_value == SUCCEED && READ_OF(values, g_fk) && DELIVERED(values, g_fk) && g_n_attach == g_n_detach))
+    __CPROVER_ensures((PAR_OK(vsid) && FX_OK(findex) && g_sel >= 0 && (g_fk < 0 || g_v_failed || !g_att_cls_ok(g_fk) || !g_att_fn_ok(g_fk))) ==>
+                      __CPROVER_return_value == FAIL)
+    __CPROVER_ensures(__CPROVER_return_value == SUCCEED || __CPROVER_return_value == FAIL);
 
 /* --- Vgroup */
 #define VG_OK(id)  ((id) == VA_VGID && g_vg_inst != NULL && g_vg_inst->vg != NULL)
@@ -407,6 +473,23 @@ int Vattrinfo(int32 vgid, int attrindex, char *name, int32 *datatype, int32 *cou
     __CPROVER_ensures((VG_OK(vgid) && g_vg->otag == DFTAG_VG && attrindex >= 0 && attrindex < g_vg->nattrs && g_vg->alist != NULL &&
                        (g_ek[attrindex] < 0 || g_v_failed || !ATT_GOOD(g_ek[attrindex]))) ==> __CPROVER_return_value == FAIL);
 
+/* the values delivered are the record of the attribute Vdata list entry attrindex refers to; an index out of range (negative too) fails */
+int Vgetattr(int32 vgid, int attrindex, void *values)
+    __CPROVER_requires(VG_REP && TAB_REP && GEK_REP)
+    __CPROVER_requires(g_vg_inst == NULL || g_vg_inst->vg != NULL)
+    __CPROVER_requires(!VG_OK(VA_VGID) || GSNAP)
+    __CPROVER_requires(values != NULL)
+    __CPROVER_assigns(V_LOG, __CPROVER_object_whole(values))
+    __CPROVER_ensures((!VG_OK(vgid) || g_vg->otag != DFTAG_VG || attrindex < 0 || attrindex >= g_vg->nattrs || g_vg->alist == NULL) ==>
+                      (__CPROVER_return_value == FAIL && g_n_attach == __CPROVER_old(g_n_attach) && g_n_read == 0))
+    __CPROVER_ensures((VG_OK(vgid) && g_vg->otag == DFTAG_VG && attrindex >= 0 && attrindex < g_vg->nattrs && g_vg->alist != NULL &&
+                       g_ek[attrindex] >= 0 && !g_v_failed && g_att_cls_ok(g_ek[attrindex])) ==>
+                      (__CPROVER_return_value == SUCCEED && READ_OF(values, g_ek[attrindex]) && DELIVERED(values, g_ek[attrindex]) &&
+                       g_n_attach == g_n_detach))
+    __CPROVER_ensures((VG_OK(vgid) && g_vg->otag == DFTAG_VG && attrindex >= 0 && attrindex < g_vg->nattrs && g_vg->alist != NULL &&
+                       (g_ek[attrindex] < 0 || g_v_failed || !g_att_cls_ok(g_ek[attrindex]))) ==> __CPROVER_return_value == FAIL)
+    __CPROVER_ensures(__CPROVER_return_value == SUCCEED || __CPROVER_return_value == FAIL);
+
 /* Vsetattr: a new name is appended (all earlier entries as they were); an existing name with the same type and count has its value
    rewritten in place (list untouched); an existing name with another type or count is refused and nothing changes */
 #define GUNCH1(i)  ((i) >= g_o_n || (g_vg->alist[i].aref == g_o_aref[i] && g_vg->alist[i].atag == g_o_atag[i]))
@@ -418,6 +501,7 @@ int Vsetattr(int32 vgid, const char *attrname, int32 datatype, int32 count, cons
     __CPROVER_requires(VG_REP && TAB_REP && GEK_REP)
     __CPROVER_requires(!VG_OK(VA_VGID) || GSNAP)
     __CPROVER_requires(attrname == NULL || NAME1(attrname))
+    __CPROVER_requires(attrname == NULL || (g_found == GFOUND(attrname) && (g_found < 0 || g_fk == g_ek[g_found])))
     __CPROVER_assigns(V_LOG; VG_OK(VA_VGID): g_vg->alist, g_vg->nattrs, g_vg->flags, g_vg->version, g_vg->marked, g_vg->old_alist, g_vg->noldattrs;
                       VG_OK(VA_VGID) && g_vg->alist != NULL: __CPROVER_object_whole(g_vg->alist))
     __CPROVER_frees(VG_OK(VA_VGID): g_vg->alist)
@@ -426,20 +510,20 @@ int Vsetattr(int32 vgid, const char *attrname, int32 datatype, int32 count, cons
     /* whatever fails leaves the list as it was */
     __CPROVER_ensures((VG_OK(vgid) && __CPROVER_return_value == FAIL) ==> GUNCH)
     /* existing name, same type and count: value rewritten in place */
-    __CPROVER_ensures((GIN_OK(vgid, attrname) && GFOUND(attrname) >= 0 && GSAME(g_ek[GFOUND(attrname)], datatype, count) && !g_v_failed) ==>
-                      (__CPROVER_return_value == SUCCEED && g_n_write == 1 && g_wr_k == g_ek[GFOUND(attrname)] && g_wr_values == values &&
+    __CPROVER_ensures((GIN_OK(vgid, attrname) && g_found >= 0 && g_fk >= 0 && GSAME(g_fk, datatype, count) && !g_v_failed) ==>
+                      (__CPROVER_return_value == SUCCEED && g_n_write == 1 && g_wr_k == g_fk && g_wr_values == values &&
                        g_wr_nelt == 1 && g_n_store == 0 && GUNCH && g_n_attach == g_n_detach))
     /* existing name, other type or count: refused, nothing written */
-    __CPROVER_ensures((GIN_OK(vgid, attrname) && GFOUND(attrname) >= 0 && !GSAME(g_ek[GFOUND(attrname)], datatype, count)) ==>
+    __CPROVER_ensures((GIN_OK(vgid, attrname) && g_found >= 0 && g_fk >= 0 && !GSAME(g_fk, datatype, count)) ==>
                       (__CPROVER_return_value == FAIL && g_n_write == 0 && g_n_store == 0 && GUNCH))
     /* new name: one attribute Vdata created from the arguments and appended */
-    __CPROVER_ensures((GIN_OK(vgid, attrname) && GFOUND(attrname) < 0 && !g_v_failed) ==>
+    __CPROVER_ensures((GIN_OK(vgid, attrname) && g_found < 0 && !g_v_failed && !g_alloc_fails) ==>
                       (__CPROVER_return_value == SUCCEED && g_vg->nattrs == g_o_n + 1 && g_vg->alist != NULL && GKEPT &&
                        g_vg->alist[g_o_n].aref == (uint16)g_st_ref && g_vg->alist[g_o_n].atag == DFTAG_VH && g_vg->marked == 1 &&
                        (g_vg->flags & VG_ATTR_SET) != 0 && g_vg->version == VSET_NEW_VERSION && g_n_write == 0 && g_n_store == 1 &&
                        g_st_f == g_file && g_st_ok && g_st_buf == values && g_st_n == 1 && g_st_type == datatype && g_st_order == count &&
                        g_st_name == attrname && g_n_attach == g_n_detach))
-    __CPROVER_ensures(g_v_failed ==> __CPROVER_return_value == FAIL);
+    __CPROVER_ensures((g_v_failed || (GIN_OK(vgid, attrname) && g_found < 0 && g_alloc_fails)) ==> __CPROVER_return_value == FAIL);
 
 #ifdef H4V_NATIVE
 #include "h4v_native_wrap.h"
@@ -498,6 +582,14 @@ mk_table(void)
         g_att[k].oref        = g_att_ref[k];
         g_att[k].f           = g_file;
         g_att_i[k].vs        = &g_att[k];
+        H4V_ND(h4v_u8, a_v0);
+        H4V_ND(h4v_u8, a_v1);
+        H4V_ND(h4v_u8, a_v2);
+        H4V_ND(h4v_u8, a_v3);
+        g_att_val[k][0]      = a_v0;
+        g_att_val[k][1]      = a_v1;
+        g_att_val[k][2]      = a_v2;
+        g_att_val[k][3]      = a_v3;
         g_att_nm[k]          = a_name;
         g_att_wn[k]          = a_n;
         g_att_cls[k]         = a_cls_ok != 0;
@@ -614,7 +706,9 @@ h_VSattrinfo(void)
     H4V_ND(int, attrindex);
     char  name[8];
     int32 dt, cnt, sz;
-    int   r = VSattrinfo(vsid, findex, attrindex, name, &dt, &cnt, &sz);
+    g_sel = PSEL(findex, attrindex);
+    g_fk  = g_sel < 0 ? -1 : g_ek[g_sel];
+    int r = VSattrinfo(vsid, findex, attrindex, name, &dt, &cnt, &sz);
     H4V_COVER(r == SUCCEED && attrindex == 1 && g_par->alist[1].findex != findex, "VSattrinfo: second attribute of the field is the third list entry");
     H4V_COVER(r == SUCCEED && cnt > 1 && g_ntsize == 4, "VSattrinfo: several values of 4 bytes");
     H4V_COVER(r == FAIL && !g_v_failed && g_n_attach == 1, "VSattrinfo: the entry is not a well-formed attribute Vdata");
@@ -661,6 +755,7 @@ mk_vg(void)
     s_vg.alist = al;
     g_o_n      = vg_nattrs;
     g_o_alist  = al;
+    g_o_esz    = (int)sizeof(vg_attr_t);
     s_vg_i.vg  = vg_null ? NULL : &s_vg;
     g_vg       = &s_vg;
     g_vg_inst  = vg_inst_null ? NULL : &s_vg_i;
@@ -735,8 +830,8 @@ h_Vattrinfo_neg(void)
     H4V_CANARY("Vattrinfo_neg end");
 }
 
-void
-h_Vsetattr(void)
+static int
+vsetattr_body(int nomem)
 {
     mk_table();
     mk_vg();
@@ -750,11 +845,63 @@ h_Vsetattr(void)
     name[0] = (char)q_name;
     name[1] = 0;
     unsigned char vals[4] = {1, 2, 3, 4};
-    int r = Vsetattr(vgid, name_null ? NULL : name, datatype, count, vals);
+    g_found       = GFOUND(name);
+    g_fk          = g_found < 0 ? -1 : g_ek[g_found];
+    g_alloc_fails = nomem;
+    return Vsetattr(vgid, name_null ? NULL : name, datatype, count, vals);
+}
+void
+h_Vsetattr(void)
+{
+    int r = vsetattr_body(0);
     H4V_COVER(r == SUCCEED && g_vg->nattrs == 4, "Vsetattr: fourth attribute appended");
     H4V_COVER(r == SUCCEED && g_vg->nattrs == 1, "Vsetattr: first attribute");
     H4V_COVER(r == SUCCEED && g_n_write == 1 && g_wr_k != g_ek[0], "Vsetattr: value of an existing attribute (not the first) rewritten");
     H4V_COVER(r == FAIL && !g_v_failed && g_n_attach > 0, "Vsetattr: changed type or count refused");
     H4V_COVER(r == FAIL && g_v_failed, "Vsetattr: V layer failure");
     H4V_CANARY("Vsetattr end");
+}
+/* the allocation of the longer list fails */
+void
+h_Vsetattr_nomem(void)
+{
+    int r = vsetattr_body(1);
+    H4V_COVER(r == FAIL && !g_v_failed && g_n_store == 1 && g_o_n == 2, "Vsetattr: no memory for the third list entry");
+    H4V_CANARY("Vsetattr_nomem end");
+}
+
+void
+h_VSgetattr(void)
+{
+    mk_table();
+    mk_par();
+    H4V_ND(int32, vsid);
+    H4V_ND(int32, findex);
+    H4V_ND(int, attrindex);
+    unsigned char vals[4] = {0, 0, 0, 0};
+    g_sel = PSEL(findex, attrindex);
+    g_fk  = g_sel < 0 ? -1 : g_ek[g_sel];
+    int r = VSgetattr(vsid, findex, attrindex, vals);
+    H4V_COVER(r == SUCCEED && attrindex == 1 && g_sel == 2 && g_att_nrec[g_fk] == 1, "VSgetattr: second attribute of the field is the third list entry");
+    H4V_COVER(r == FAIL && attrindex < 0, "VSgetattr: negative index");
+    H4V_COVER(r == FAIL && !g_v_failed && g_n_attach == 1, "VSgetattr: the entry is not a well-formed attribute Vdata");
+    H4V_COVER(r == FAIL && g_v_failed && g_n_read == 1, "VSgetattr: read failure");
+    H4V_CANARY("VSgetattr end");
+}
+
+void
+h_Vgetattr(void)
+{
+    mk_table();
+    mk_vg();
+    H4V_ASSUME(g_vg_inst == NULL || g_vg_inst->vg != NULL);
+    H4V_ND(int32, vgid);
+    H4V_ND(int, attrindex);
+    unsigned char vals[4] = {0, 0, 0, 0};
+    int r = Vgetattr(vgid, attrindex, vals);
+    H4V_COVER(r == SUCCEED && attrindex == 2 && g_att_nrec[g_ek[2]] == 1, "Vgetattr: third attribute");
+    H4V_COVER(r == FAIL && attrindex < 0 && vgid == VA_VGID, "Vgetattr: negative index");
+    H4V_COVER(r == FAIL && attrindex == 3 && g_o_n == 3 && vgid == VA_VGID, "Vgetattr: index past the end");
+    H4V_COVER(r == FAIL && g_v_failed && g_n_read == 1, "Vgetattr: read failure");
+    H4V_CANARY("Vgetattr end");
 }
